@@ -399,6 +399,9 @@ func runC16(c *Ctx) {
 		c.mergeModel("Q9-incremental-merge-in-step", f)
 	}
 	c.Min("Q9-incremental-merge-in-step", 12)
+	// ... and inserts where the binary search over the descending list says (C08-H1b)
+	c.ruleBinarySearch("Q9-binary-search-descending")
+	c.Min("Q9-binary-search-descending", 3)
 }
 
 // model constants of package engine
